@@ -114,15 +114,20 @@ pub struct Settings {
     pub gather_rules: GatherToggle,
     pub check_app_id: bool,
     pub port: Option<u16>,
+    /// use exactly these timeout settings (C18)
+    pub ts_override: Option<TimeoutSettings>,
 }
 
 impl Settings {
     pub fn gen(rng: &mut Rng) -> Self {
         let t = [GatherToggle::Skip, GatherToggle::Try, GatherToggle::Enforce];
-        Self { retries: rng.below(3) as usize, timeouts_some: rng.bool(), gather_players: *rng.pick(&t), gather_rules: *rng.pick(&t), check_app_id: rng.bool(), port: rng.bool().then(|| rng.range(1, 65535) as u16) }
+        Self { retries: rng.below(3) as usize, timeouts_some: rng.bool(), gather_players: *rng.pick(&t), gather_rules: *rng.pick(&t), check_app_id: rng.bool(), port: rng.bool().then(|| rng.range(1, 65535) as u16), ts_override: None }
     }
-    pub fn fixed() -> Self { Self { retries: 0, timeouts_some: true, gather_players: GatherToggle::Enforce, gather_rules: GatherToggle::Enforce, check_app_id: false, port: None } }
+    pub fn fixed() -> Self { Self { retries: 0, timeouts_some: true, gather_players: GatherToggle::Enforce, gather_rules: GatherToggle::Enforce, check_app_id: false, port: None, ts_override: None } }
     pub fn ts(&self) -> Option<TimeoutSettings> {
+        if let Some(t) = self.ts_override {
+            return Some(t);
+        }
         if self.timeouts_some {
             TimeoutSettings::new(Some(std::time::Duration::from_millis(50)), Some(std::time::Duration::from_millis(50)), Some(std::time::Duration::from_millis(50)), self.retries).ok()
         } else if self.retries == 0 {
